@@ -576,12 +576,13 @@ def build_graphs(scn, mods, objs):
         needed = set()
         for spec in specs:
             needed.update(spec['hard'] + spec['soft'])
-        tops = [objs[i] for i in range(len(specs)) if i not in needed] or \
-            list(objs)
+        tops = [objs[i] for i in range(len(specs)) if i not in needed]
+        if is_cyclic(scn):
+            # a cycle that nothing outside it depends on has no top: the job
+            # names every task (on acyclic jobs only the tops, so that the
+            # closure has something to do)
+            tops = list(objs)
         tasks = mods['task'].close_dependency_graph(tops)
-        if len(tasks) < len(objs):
-            # (a cycle that nothing outside it depends on)
-            tasks = mods['task'].close_dependency_graph(list(objs))
         hard, soft = dg(), dg()
         for tsk in tasks:
             hard.add_node(tsk)
